@@ -26,7 +26,7 @@ RULE = ('For every (type, value) of a reduced universe (REC stride, OF, CH, NEST
         'every order), DEFAULT component assigned explicitly or left out, clone(cloneValueFlag=True) at the end, build by '
         'decoding each BER form with <= 1 departure from DER, REAL values re-scaled or carrying the BER encoding-base hint, and read-only operations (DER/CER/BER encode, prettyPrint, '
         'str, repr, keys/values/items, len, in, ==, isValue, isInconsistent, getComponentByPosition(i) for EVERY i incl. '
-        'unset OPTIONAL and non-selected CHOICE alternatives, obj[name]) inserted singly at every position of every route '
+        'unset OPTIONAL and non-selected CHOICE alternatives, obj[name], the same reads on a record held as a component) inserted singly at every position of every route '
         'and pairwise after construction}. Oracle: every complete history yields the same DER and the same CER bytes as '
         'the plain route; der(decode(der)) == der and cer(decode(cer)) == cer. States = distinct (type, value, raw object '
         'shape) reached; transitions = operations executed on the real objects.')
@@ -44,6 +44,9 @@ def reads_for(T):
         ops += ['keys', 'values', 'items', 'in']
         for i, f in enumerate(base[1]):
             ops += ['getpos(%d)' % i, 'getname(%s)' % f[0], 'getpos_noinst(%d)' % i]
+            if M.base_of(f[1])[0] in ('SEQ', 'SET'):
+                # read-only use of a record held by this record: every one of its members, its values(), its encoding
+                ops += ['deep(%d)' % i]
     elif k in ('SEQOF', 'SETOF'):
         ops += ['iter', 'in', 'getlast', 'count', 'getpos_noinst(0)']
     elif k == 'CHOICE':
@@ -98,6 +101,12 @@ def do_read(obj, op, T):
             obj.getComponentByPosition(int(arg))
         elif name == 'getpos_noinst':
             obj.getComponentByPosition(int(arg), default=None, instantiate=False)
+        elif name == 'deep':
+            inner = obj.getComponentByPosition(int(arg))
+            for j in range(len(inner.componentType)):
+                inner.getComponentByPosition(j)
+            list(inner.values())
+            der_enc.encode(inner)
         elif name == 'getname':
             obj[arg]
         elif name == 'getName':
